@@ -335,6 +335,62 @@ inline void Run(const Args& args, Result& res) {
                                 }
                         }
                 }
+                // ---- clause 1b': the offset (second-word) address of the ar/arp-configured forms as a cluster: every form with an ar/arp operand x
+                // modulo value x offset code x step code x modulo/bit-reverse mode x TeakLite mode x pointer position (the "+1 with wrap" rule looks
+                // at the modulo value, the mode bits and the pointer's low bits together)
+                if (!capped) {
+                    c.impl.api->fill_memory(c.impl.m, 3);
+                    c.ref.api->fill_memory(c.ref.m, 3);
+                    std::vector<std::pair<u16, DecodeInfo>> forms;
+                    {
+                        std::set<int> rows;
+                        for (u32 op = 0; op < 0x10000; ++op) {
+                            DecodeInfo di;
+                            c.ref.api->decode((u16)op, &di);
+                            if (di.row < 0 || rows.count(di.row))
+                                continue;
+                            bool ar = false;
+                            for (int a = 0; a < di.nargs; ++a)
+                                ar |= std::strncmp(di.arg_types[a], "Ar", 2) == 0;
+                            if (ar) {
+                                rows.insert(di.row);
+                                forms.push_back({(u16)op, di});
+                            }
+                        }
+                    }
+                    const u16 mods[] = {0, 1, 2, 3, 4, 5, 7, 8, 0x0F, 0x10, 0x1F, 0x3F, 0x40, 0x7F, 0x80, 0xFF, 0x100, 0x1FF};
+                    u32 job = 0;
+                    for (u16 mod : mods)
+                        for (int unit : {0, 3, 5})
+                            for (u16 off = 0; off < 4; ++off) {
+                                if ((job++ % cnt) != (u32)idx)
+                                    continue;
+                                u16 mask = 0;
+                                while (mask < mod)
+                                    mask = (u16)((mask << 1) | 1);
+                                for (u16 stp : {(u16)0, (u16)1, (u16)2})
+                                    for (int cfg = 0; cfg < 8; ++cfg) {
+                                        VState st = c.bases[0].second;
+                                        st.modi = st.modj = mod;
+                                        st.cmd = cfg & 1;
+                                        for (int u = 0; u < 8; ++u)
+                                            st.m[u] = (cfg >> 1) & 1, st.br[u] = (cfg >> 2) & 1;
+                                        for (int k = 0; k < 4; ++k) {
+                                            st.arrn[k] = (u16)unit;
+                                            st.arprni[k] = (u16)(unit < 4 ? unit : 1), st.arprnj[k] = (u16)(unit >= 4 ? unit - 4 : 2);
+                                            st.arstep[k] = st.arpstepi[k] = st.arpstepj[k] = stp;
+                                            st.aroffset[k] = st.arpoffseti[k] = st.arpoffsetj[k] = off;
+                                        }
+                                        for (u16 r : {(u16)0x6400, (u16)(0x6400 | 1), (u16)(0x6400 | mod), (u16)((0x65FF & ~mask) | mod), (u16)((0x65FF & ~mask) | (mod ? mod - 1 : 0)),
+                                                      (u16)(0x6400 | ((mod + 1) & mask))}) {
+                                            for (int u = 0; u < 8; ++u)
+                                                st.r[u] = (u16)(r + (u == unit ? 0 : 0x200 * (u + 1)));
+                                            for (auto& f : forms)
+                                                sw.One(f.first, 0x6480, f.second.need_expansion, st, 0, {-1, 0}, {-1, 0}, f.second, 3);
+                                        }
+                                    }
+                            }
+                }
                 // ---- clause 1c: the loop state as a cluster: single-instruction repeat x block repeat x where the block ends, for every opcode
                 // (the sequencer's rep and bkrep bookkeeping interact on the same fetch; one-field deviations keep them apart)
                 if (!capped) {
@@ -425,7 +481,7 @@ inline void Run(const Args& args, Result& res) {
                    "draws) produce vectors that are loaded as test_verifier does and run: no abort, pc = 1+NeedExpansion, data accesses only "
                    "inside the two compared windows; distinct = distinct non-trivial (opcode, result) pairs + distinct generated vectors",
                    ss.items.size(), th ? " on all bases" : " on base 0, bit/mode deviations on two more bases");
-    res.bound = Fmt("all 65536 opcodes; %zu states per opcode; addressing cluster: 18 modulo values x 128 steps x 16 mode combinations x 6 positions x 3 registers x 6 stepping instructions; loop cluster: every opcode x 52 rep/bkrep state combinations; generator: %zu default answers, 1-deviations%s", ss.items.size(), K.size(),
+    res.bound = Fmt("all 65536 opcodes; %zu states per opcode; addressing cluster: 18 modulo values x 128 steps x 16 mode combinations x 6 positions x 3 registers x 6 stepping instructions; offset cluster: every ar/arp-operand form x 18 modulo values x 4 offset codes x 3 step codes x 8 mode combinations x 6 positions x 3 registers; loop cluster: every opcode x 52 rep/bkrep state combinations; generator: %zu default answers, 1-deviations%s", ss.items.size(), K.size(),
                     th ? ", 2-deviations over the last 24 draws" : "");
     res.assumptions = {"the frozen reference in /verif/ref (origin and sha256 in ref/ORIGIN, ref/SHA256SUMS) is the hardware-validated semantics",
                        "states outside the declared alphabet are not visited; prpage fixed at 0 (C18 covers the rest)",
